@@ -286,7 +286,13 @@ def _workers():
 def oracle(ctx):
     cache = _cache(ctx)
     t0 = time.time()
-    # ---- directed witnesses
+
+    def take(cases, meta, res):
+        for c in cases:
+            o = res.get(c["id"])
+            if o is not None and _evaluate(ctx, o, meta[c["id"]]):
+                cache["results"].append((o, meta[c["id"]]))
+    # ---- directed witnesses and shapes first, in their own children (they are the regression corpus)
     cases, meta = [], {}
     for name, files, opts in directed():
         d = os.path.join(ctx.tmp, "directed", name)
@@ -294,28 +300,24 @@ def oracle(ctx):
         cid = "directed-" + name
         cases.append({"id": cid, "dir": d, "opts": opts, "ir": True})
         meta[cid] = {"files": files, "opts": opts, "sub": ["directed", name]}
-    # ---- generated stream
-    nproj = ctx.scale(260, 5000)
-    # leave room for the correspondence and the Lean side
-    share = 0.55
-    c2, m2 = _gen_batch(ctx, "gen", nproj, 3, 0.35)
-    cases += c2
-    meta.update(m2)
-    limit = max(20.0, min(ctx.time_left() * share, ctx.scale(70.0, 900.0)))
-    res = _run_children(ctx, cases, _workers(), limit)
-    for c in cases:
-        o = res.get(c["id"])
-        if o is None:
-            continue
-        if _evaluate(ctx, o, meta[c["id"]]):
-            cache["results"].append((o, meta[c["id"]]))
-    # the directed shapes must behave as recorded: the multiPackage shape is fine, the others show the known clash
+    res = _run_children(ctx, cases, 4, max(20.0, ctx.time_left() - 45.0))
+    take(cases, meta, res)
+    # the directed shapes without a name clash must give an acyclic job graph
     for name in ("multi-ok", "propagate-grandparent", "propagate-merged", "tool-only", "isolate-multi"):
         ok = res.get("directed-" + name)
         if ok is not None and (ok["status"] != "ok" or ok.get("order") != "ok"):
             ctx.violation("the project '%s' (acyclic recipes, no name clash) does not give an acyclic job graph: %s"
                           % (name, ok.get("order") or ok.get("error") or ok.get("gen_error")),
                           dict(_record(meta["directed-" + name]), signature="directed-shape-fails"), "directed-shape-fails")
+    # ---- generated stream, as much as fits (room is left for the correspondence)
+    if ctx.time_left() > 40:
+        nproj = ctx.scale(260, 5000)
+        c2, m2 = _gen_batch(ctx, "gen", nproj, 3, 0.35)
+        limit = max(10.0, min((ctx.time_left() - 25.0) * 0.6, ctx.scale(70.0, 900.0)))
+        res = _run_children(ctx, c2, _workers(), limit)
+        take(c2, m2, res)
+    else:
+        ctx.skip("c20: no time left for the generated stream of the oracle")
     cache["budget_used"] = time.time() - t0
 
 
